@@ -30,7 +30,7 @@ RULE = (
     "order (task t may complete at position j iff t < j+W; other pools in submission order - sound because every "
     "pool's output is part of the compared observation, see DESIGN.md E3a). Pools with <= 5 tasks: stateless "
     "enumeration of all orders; larger: explicit-state search, state = (consumed task set, hash of the consumer "
-    "frame's picklable locals). Plus: all pools jointly with <= 2 deviations from submission order. Plus (boundary): pickle round trips of Configuration / BinningConfig / Binning / ScalesConfig for method {linear, comoving, logspace, custom} x closed x cosmology {Planck15, WMAP9, instance, custom} x unit {deg, kpc} mean the same afterwards. Oracle: "
+    "frame's picklable locals). Plus: all pools jointly with <= 2 deviations from submission order. Plus (boundary): pickle round trips of Configuration / BinningConfig / Binning / ScalesConfig for method {linear, comoving, logspace, custom} x closed x cosmology {Planck15, WMAP9, instance, custom} x unit {deg, kpc} mean the same afterwards. Before the runs a caller edits, in place, every array obtained from Patch.redshifts / Patch.weights (results must not move). Real-pool sequences also with relative cache paths and a chdir to a directory with other catalogs in between. Oracle: "
     "observation bit-identical to the sequential (W=1, no pool) run. Inputs have pairwise different per-patch "
     "contents (asserted). Non-trivial: a pool with >= 2 tasks and an order differing from submission order ran."
 )
@@ -82,6 +82,10 @@ def cases(tier, seed):
     # the virtual pool's model, so this part runs free on the real multiprocessing module)
     for (b1, w1), (b2, w2) in itertools.product(itertools.product("AB", (1, 2)), repeat=2):
         out.append(dict(entry="realpool-seq", scenario=[[b1, w1], [b2, w2]], seed=seed))
+    # the same with relative cache paths and a change of the working directory in between (other catalogs under
+    # the same relative names): workers must see the parent's current state
+    for w1, w2 in itertools.product((1, 2), repeat=2):
+        out.append(dict(entry="realpool-seq", scenario=[["A", w1, "a"], ["A", w2, "b"]], seed=seed))
     return out
 
 
@@ -143,7 +147,7 @@ def run_realpool_seq(case):
             return "FAILED " + (p.stderr.strip().splitlines() or ["?"])[-1][:200]
 
     got = run(case["scenario"])
-    want = run([[case["scenario"][-1][0], 1]])
+    want = run([[case["scenario"][-1][0], 1] + case["scenario"][-1][2:]])
     res = dict(nontrivial=case["scenario"][0] != case["scenario"][1], key=case, counters=dict(executions=2, states=2, transitions=2))
     if got != want:
         res.update(status="violation", violations=[dict(
@@ -330,9 +334,23 @@ def run_case(case):
     body = make_body(entry, root, cats, case.get("closed", "right"))
     # sequential baseline (no pool at all)
     base = body()
+    # a caller edits, in place, the arrays the patches hand out; the cache on disk is untouched, so every later run
+    # (sequential on these objects, or in workers on unpickled copies) must still give the same result
+    edited = 0
+    for cat in cats.values():
+        for patch in cat.values():
+            for arr in (patch.redshifts, patch.weights):
+                if arr is not None and getattr(arr, "flags", None) is not None and arr.flags.writeable:
+                    arr += 1.0
+                    edited += 1
     base2 = body()
     if base != base2:
-        raise RuntimeError("sequential baseline is not reproducible")
+        res = dict(nontrivial=True, key=case, counters=dict(executions=2, states=2, transitions=2))
+        res.update(status="violation", violations=[dict(
+            signature=f"C05/{entry}/sequential-run-uses-edited-copies",
+            what=f"{entry}: after a caller edited arrays obtained from Patch.redshifts / Patch.weights in place the sequential "
+                 f"run gives another result (workers read the untouched cache: the result depends on the worker count)")])
+        return res
     vmp.install(workers=W)
     memo = {}
     viols = []
